@@ -36,6 +36,12 @@ pub enum Plan {
     /// statement `at - 1` drop its result and re-introduce the same variable id as a zero-sized unit
     /// value, so that the two merging paths disagree on the variable's type.
     MergeRetype { at: usize, res: usize },
+    /// Set a value generic argument of a type declaration (BoundedInt bounds, Const values, …) to a
+    /// boundary value (decimal string).
+    SetTypeArgValue { decl: usize, k: usize, value: String },
+    SetTypeArgValues { decl: usize, ks: Vec<usize>, values: Vec<String> },
+    /// Same for a libfunc declaration.
+    SetLibfuncArgValue { decl: usize, k: usize, value: String },
 }
 
 impl Plan {
@@ -168,6 +174,31 @@ pub fn apply(orig: &Program, plan: &Plan) -> Option<Program> {
                 _ => return None,
             }
         }
+        Plan::SetTypeArgValue { decl, k, value } => {
+            let d = p.type_declarations.get_mut(*decl)?;
+            match d.long_id.generic_args.get_mut(*k)? {
+                GenericArg::Value(v) => *v = value.parse().ok()?,
+                _ => return None,
+            }
+            d.declared_type_info = None;
+        }
+        Plan::SetTypeArgValues { decl, ks, values } => {
+            let d = p.type_declarations.get_mut(*decl)?;
+            for (k, value) in ks.iter().zip(values.iter()) {
+                match d.long_id.generic_args.get_mut(*k)? {
+                    GenericArg::Value(v) => *v = value.parse().ok()?,
+                    _ => return None,
+                }
+            }
+            d.declared_type_info = None;
+        }
+        Plan::SetLibfuncArgValue { decl, k, value } => {
+            let d = p.libfunc_declarations.get_mut(*decl)?;
+            match d.long_id.generic_args.get_mut(*k)? {
+                GenericArg::Value(v) => *v = value.parse().ok()?,
+                _ => return None,
+            }
+        }
         Plan::MoveEntry { func, stmt } => {
             p.funcs.get_mut(*func)?.entry_point = StatementIdx(*stmt);
         }
@@ -292,6 +323,51 @@ fn nearby_var(p: &Program, stmt: usize, rng: &mut Rng) -> u64 {
     if vars.is_empty() { rng.below(20) } else { *rng.pick(&vars) }
 }
 
+/// Deterministic boundary-value plans: every type declaration with value arguments gets each of a few
+/// degenerate argument tuples (empty/one-point/reversed ranges, extreme constants); at most `cap` plans,
+/// sampled with `rng` when there are more.
+pub fn boundary_plans(p: &Program, cap: usize, rng: &mut Rng) -> Vec<Plan> {
+    use num_bigint::BigInt;
+    let mut out = vec![];
+    let big = |s: &str| s.parse::<BigInt>().unwrap();
+    let u128max = big("340282366920938463463374607431768211455");
+    let prime = big("3618502788666131213697322783095070105623107215331596699973092056135872020481");
+    for (decl, d) in p.type_declarations.iter().enumerate() {
+        let vals: Vec<(usize, BigInt)> = d.long_id.generic_args.iter().enumerate().filter_map(|(k, a)| match a {
+            GenericArg::Value(v) => Some((k, v.clone())),
+            _ => None,
+        }).collect();
+        let tuples: Vec<Vec<BigInt>> = match vals.len() {
+            1 => {
+                let v = &vals[0].1;
+                vec![vec![big("0")], vec![big("-1")], vec![big("1")], vec![v + 1], vec![-v], vec![&u128max + 1], vec![&prime - 1], vec![prime.clone()], vec![-&prime]]
+            }
+            2 => {
+                let (a, b) = (&vals[0].1, &vals[1].1);
+                vec![
+                    vec![big("0"), big("0")], vec![big("1"), big("1")], vec![big("-1"), big("-1")], vec![big("0"), big("1")],
+                    vec![big("-1"), big("0")], vec![a.clone(), a.clone()], vec![b.clone(), b.clone()], vec![b.clone(), a.clone()],
+                    vec![a.clone(), b + 1], vec![a - 1, b.clone()], vec![big("0"), b.clone()], vec![a.clone(), big("0")],
+                    vec![big("0"), u128max.clone()], vec![big("0"), &u128max + 1], vec![-&u128max, u128max.clone()],
+                    vec![big("0"), &prime - 1], vec![big("0"), prime.clone()], vec![-&prime, prime.clone()],
+                ]
+            }
+            _ => continue,
+        };
+        for t in tuples {
+            if t.iter().zip(vals.iter()).all(|(x, (_, v))| x == v) {
+                continue;
+            }
+            out.push(Plan::SetTypeArgValues { decl, ks: vals.iter().map(|(k, _)| *k).collect(), values: t.iter().map(|x| x.to_string()).collect() });
+        }
+    }
+    while out.len() > cap {
+        let i = rng.below(out.len() as u64) as usize;
+        out.swap_remove(i);
+    }
+    out
+}
+
 /// `n` seeded single-point mutation plans for `p`.
 pub fn plans(p: &Program, n: usize, rng: &mut Rng) -> Vec<Plan> {
     let ns = p.statements.len();
@@ -337,7 +413,7 @@ pub fn plans(p: &Program, n: usize, rng: &mut Rng) -> Vec<Plan> {
             }
             Statement::Return(v) => (v.len(), 0, 0),
         };
-        let plan = match rng.below(24) {
+        let plan = match rng.below(26) {
             0 => Plan::DeleteStmt(stmt),
             1 => Plan::DupStmt(stmt),
             2 => Plan::SwapStmt(stmt),
@@ -424,6 +500,41 @@ pub fn plans(p: &Program, n: usize, rng: &mut Rng) -> Vec<Plan> {
                 }
             }
             23 if nbr > 0 => Plan::StmtToReturn(stmt),
+            24 | 25 => {
+                // boundary values for value arguments: absolute ones and ones next to the sibling arguments
+                let on_type = rng.chance(2, 3);
+                let cands: Vec<(usize, usize)> = if on_type {
+                    p.type_declarations.iter().enumerate().flat_map(|(i, d)| {
+                        d.long_id.generic_args.iter().enumerate().filter(|(_, a)| matches!(a, GenericArg::Value(_))).map(move |(k, _)| (i, k))
+                    }).collect()
+                } else {
+                    p.libfunc_declarations.iter().enumerate().flat_map(|(i, d)| {
+                        d.long_id.generic_args.iter().enumerate().filter(|(_, a)| matches!(a, GenericArg::Value(_))).map(move |(k, _)| (i, k))
+                    }).collect()
+                };
+                if cands.is_empty() {
+                    continue;
+                }
+                let (decl, k) = *rng.pick(&cands);
+                let args = if on_type { &p.type_declarations[decl].long_id.generic_args } else { &p.libfunc_declarations[decl].long_id.generic_args };
+                let mut vals: Vec<String> = ["0", "1", "-1", "2", "255", "256", "340282366920938463463374607431768211455",
+                    "340282366920938463463374607431768211456", "-170141183460469231731687303715884105728",
+                    "3618502788666131213697322783095070105623107215331596699973092056135872020480",
+                    "3618502788666131213697322783095070105623107215331596699973092056135872020481",
+                    "-3618502788666131213697322783095070105623107215331596699973092056135872020480"]
+                    .iter().map(|s| s.to_string()).collect();
+                for a in args.iter() {
+                    if let GenericArg::Value(v) = a {
+                        vals.push(v.to_string());
+                        let one = num_bigint::BigInt::from(1);
+                        vals.push((v + &one).to_string());
+                        vals.push((v - &one).to_string());
+                        vals.push((-v.clone()).to_string());
+                    }
+                }
+                let value = rng.pick(&vals).clone();
+                if on_type { Plan::SetTypeArgValue { decl, k, value } } else { Plan::SetLibfuncArgValue { decl, k, value } }
+            }
             _ => continue,
         };
         out.push(plan);
